@@ -203,6 +203,11 @@ theorem fields_distinct (E : Env) (k : Kind) (cfg : Cfg) :
     · cases h
     · cases h
 
+/-- non-vacuity: three properties that sanitise to the same name (`a-`, `a_`, `a+`) -/
+example : foldFields pyEnv .pydantic {} [['a', '-'], ['a', '_'], ['a', '+']] [] =
+    .ok [(['a', '_'], some ['a', '-']), (['a', '_', '_', '1'], some ['a', '_']),
+         (['a', '_', '_', '2'], some ['a', '+'])] := by decide +kernel
+
 /-- the hypothesis on `aliases` cannot be dropped: the user's map is applied without looking at the
 excludes (two properties may be given the same name) -/
 theorem fields_distinct_needs_alias_hypothesis :
@@ -238,6 +243,12 @@ theorem alias_preserved (E : Env) (k : Kind) (cfg : Cfg) (n : List Char) (excl :
       exact ⟨⟨fun _ => ⟨fun h => hc.2 h.symm, hc.1⟩, fun _ => rfl⟩, Or.inr rfl⟩
   | outOfFuel => rw [hv] at h; simp [Res.map] at h
   | error => rw [hv] at h; simp [Res.map] at h
+
+/-- non-vacuity: a keyword gets the suffix and keeps its name as alias; `no_alias` drops it -/
+example : getValidFieldNameAndAlias pyEnv .pydantic {} ['c', 'l', 'a', 's', 's'] [] =
+    .ok (['c', 'l', 'a', 's', 's', '_'], some ['c', 'l', 'a', 's', 's']) := by decide +kernel
+example : getValidFieldNameAndAlias pyEnv .pydantic { noAlias := true } ['c', 'l', 'a', 's', 's'] [] =
+    .ok (['c', 'l', 'a', 's', 's', '_'], none) := by decide +kernel
 
 /-- the wire key (alias if any, else the name) of every member is the property name, also for
 properties renamed through the `aliases` map — as long as `no_alias` is off -/
